@@ -130,3 +130,110 @@ func replayVolume(cfg WorkerCfg) (handled bool, code int) {
 func init() {
 	extraCommands["c11-volume"] = workerC11Volume
 }
+
+// ---- C13 volume phase ---------------------------------------------------------
+//
+// An evaluator carries no observable state between calls - also not after
+// millions of them. A long-lived object and a young one (recreated every 257
+// calls) are driven through the same stream of distinct data on the untouched
+// build; their answers must agree on every datum. Tables that collide, rotate,
+// evict or overflow only after a great many distinct inputs show up here. The
+// stream is a function of (seed, worker, template), so a finding replays by
+// running the same stream again.
+
+type c13Stream struct {
+	name string
+	spec ObjSpec
+	gen  func(seed uint64, w, i int) interface{}
+}
+
+var c13Streams = []c13Stream{
+	{"log-lines", ObjSpec{Kind: "evaluator", Expr: `line matches "status (ERROR|timeout)$" or line matches "^2026-1[12]"`},
+		func(seed uint64, w, i int) interface{} {
+			st := []string{"ok", "ERROR", "timeout", "retry"}[(i*7+i/5)%4]
+			return map[string]interface{}{"line": fmt.Sprintf("2026-%02d-%02dT%02d:%02d host-%03d-%02d request %08d finished with status %s", 1+i%12, 1+i%28, i%24, i%60, seed%1000, w, i, st)}
+		}},
+	{"names", ObjSpec{Kind: "evaluator", Expr: `name == "node-0000042" or name matches "7$" or "x9" in name`},
+		func(seed uint64, w, i int) interface{} {
+			return map[string]interface{}{"name": fmt.Sprintf("node-%07d", i), "n": i}
+		}},
+	{"tags", ObjSpec{Kind: "evaluator", Expr: `"tag-7" in tags and not ( any tags as t { t matches "^zz" } )`},
+		func(seed uint64, w, i int) interface{} {
+			return map[string]interface{}{"tags": []string{fmt.Sprintf("tag-%d", i%13), fmt.Sprintf("u%d-%d", w, i), "tag-7"}[:2+i%2]}
+		}},
+	{"records", ObjSpec{Kind: "filter", Expr: `y matches "-(1|3|5)" and X != 3`},
+		func(seed uint64, w, i int) interface{} {
+			return []Inner{{X: i % 7, Y: fmt.Sprintf("rec-%d-%d", w, i)}, {X: 3, Y: fmt.Sprintf("rec-%d", i%11)}, {X: i, Y: fmt.Sprintf("long-record-name-%d-%09d-padding-padding", w, i)}}
+		}},
+}
+
+func runC13Stream(seed uint64, w, tmpl, n int) (first int, detail string, calls int) {
+	st := c13Streams[tmpl%len(c13Streams)]
+	old := NewObject(st.spec)
+	young := NewObject(st.spec)
+	call := func(o *Object, d interface{}) Outcome {
+		if st.spec.Kind == "filter" {
+			return o.Execute(d)
+		}
+		return o.Evaluate(d)
+	}
+	for i := 0; i < n; i++ {
+		if i%257 == 0 {
+			young = NewObject(st.spec)
+		}
+		d := st.gen(seed, w, i)
+		a, b := call(old, d), call(young, d)
+		calls += 2
+		if !a.Same(b, true) {
+			return i, fmt.Sprintf("%s %q, datum %d of the stream (%v): the object that has answered %d calls returns %s, an object created %d calls ago returns %s",
+				st.spec.Kind, st.spec.Expr, i, clip(fmt.Sprint(d), 160), i, a, i%257, b), calls
+		}
+	}
+	return -1, "", calls
+}
+
+func workerC13Volume(cfg WorkerCfg) int {
+	total := 0
+	for tmpl := range c13Streams {
+		n := cfg.To
+		if tmpl > 0 {
+			n = cfg.To / 16
+		}
+		first, detail, calls := runC13Stream(cfg.Seed, cfg.From, tmpl, n)
+		total += calls
+		if first >= 0 {
+			cfg.Emit(Violation{Type: "violation", Property: "C13", Engine: "simsched", Kind: "differs-from-young-object",
+				Key: "C13/differs-from-young-object/" + c13Streams[tmpl].name, Detail: detail, Seed: cfg.Seed, Index: first,
+				Replay: mustJSON(map[string]interface{}{"engine": "simsched", "property": "C13", "build": "pure", "seed": cfg.Seed,
+					"stream": map[string]interface{}{"worker": cfg.From, "template": tmpl, "calls": first + 1, "failing_index": first}})})
+		}
+	}
+	cfg.Emit(map[string]interface{}{"type": "volume-summary", "worker": cfg.From, "calls": total})
+	return 0
+}
+
+func replayC13Stream(cfg WorkerCfg) (handled bool, code int) {
+	b, err := os.ReadFile(cfg.File)
+	if err != nil {
+		return false, 0
+	}
+	var doc struct {
+		Seed   uint64 `json:"seed"`
+		Stream *struct {
+			Worker   int `json:"worker"`
+			Template int `json:"template"`
+			Calls    int `json:"calls"`
+			Index    int `json:"failing_index"`
+		} `json:"stream"`
+	}
+	if json.Unmarshal(b, &doc) != nil || doc.Stream == nil {
+		return false, 0
+	}
+	first, detail, _ := runC13Stream(doc.Seed, doc.Stream.Worker, doc.Stream.Template, doc.Stream.Calls)
+	cfg.Emit(map[string]interface{}{"type": "replay", "reproduced": first == doc.Stream.Index, "first_difference": first, "detail": detail})
+	return true, 0
+}
+
+func init() {
+	extraCommands["c13-volume"] = workerC13Volume
+}
